@@ -154,8 +154,8 @@ def call_models(pid):
 
 
 def system_reset(pid):
-    """System.reset (TDS not initialised): DAE reset, addresses reset, equation arrays cleared, input parameter values restored,
-    then set-up again -- in this order."""
+    """System.reset (TDS not initialised): DAE reset, addresses reset, equation arrays cleared, input parameter values of every model
+    restored (no selection of models), then set-up again -- in this order."""
     exp = ['dae.reset', 'call_models(a_reset)', 'e_clear', '_p_restore', 'setup']
 
     def post(old, new, res):
@@ -167,12 +167,19 @@ def system_reset(pid):
         st.ghost['order'] = st.ghost['order'] + [('setup', True)]
         return True
     mdl = lambda st: st.load('self.models')       # noqa
+
+    def p_restore_all(ex, st, args, kw, node):
+        # the input values of EVERY model are restored: called without a selection, or with all models
+        given = list(args) + list(kw.values())
+        ok = not given or (len(given) == 1 and _same(given[0], st.load('self.models')))
+        st.ghost['order'] = st.ghost['order'] + [('_p_restore', bool(ok))]
+        return None
     return Contract(FS, 'System.reset', pid=pid, params={'self': TObj(), 'force': TConst(False)},
                     schema={'self.TDS.initialized': TBool(), 'self.models': TOpaque('Models'), 'self.is_setup': TBool()},
                     ghost_init={'order': []},
                     calls={'self.dae.reset': _rec('dae.reset'),
                            'self.call_models': _rec('call_models(a_reset)', {0: lambda st: 'a_reset', (1, 'models'): mdl}),
-                           'self.e_clear': _rec('e_clear', {(0, 'models'): mdl}), 'self._p_restore': _rec('_p_restore'), 'self.setup': setup,
+                           'self.e_clear': _rec('e_clear', {(0, 'models'): mdl}), 'self._p_restore': p_restore_all, 'self.setup': setup,
                            'logger.error': lambda ex, st, a, k, n: None},
                     ensures=[('dae.reset>a_reset>e_clear>_p_restore>is_setup=False>setup', post)],
                     modifies=['self.is_setup'])
@@ -636,3 +643,33 @@ def replay_l_update_var(obligation=None, model=None, meta=None):
                             [g[0] for g in norm], (': not updated: %r' % missing) if missing else ''),
                         'native_cmd': 'Model.l_update_var(stub, dae_t, niter=niter, err=err) with recorder components of the real classes'}
     return {'confirmed': False, 'tried': n}
+
+
+def replay_reset_inputs(obligation=None, model=None, meta=None):
+    """native: kundur_full -- PFlow.run(); a dynamic-model parameter changed with set(); reset(): every numeric parameter of every model
+    (power-flow and dynamic) has its input value of the case file again, and its system value is that input times its coefficient"""
+    import contextlib
+    import io
+    import logging
+    import numpy as np
+    import andes
+    logging.getLogger('andes').setLevel(logging.CRITICAL)
+    with contextlib.redirect_stdout(io.StringIO()), contextlib.redirect_stderr(io.StringIO()):
+        ss = andes.load(andes.get_case('kundur/kundur_full.xlsx'), default_config=True, no_output=True)
+        snap = {(mn, pn): (np.array(p.vin, dtype=float).copy(), np.array(p.v, dtype=float).copy())
+                for mn, m in ss.models.items() if m.n for pn, p in m.num_params.items() if p.vin is not None}
+        ss.PFlow.run()
+        ss.GENROU.set('D', ss.GENROU.idx.v[0], 'v', 7.5)
+        ss.reset()
+    n = 0
+    for (mn, pn), (vin0, v0) in snap.items():
+        p = ss.models[mn].num_params[pn]
+        n += 1
+        vin1, v1 = np.array(p.vin, dtype=float), np.array(p.v, dtype=float)
+        if vin1.shape != vin0.shape or not np.allclose(vin1, vin0, rtol=1e-12, atol=0, equal_nan=True) or not np.allclose(v1, v0, rtol=1e-12, atol=0, equal_nan=True):
+            return {'confirmed': True, 'inputs': {'case': 'kundur_full', 'sequence': "PFlow.run(); GENROU.set('D', first, 'v', 7.5); reset()", 'parameter': '%s.%s' % (mn, pn)},
+                    'observed': 'after reset(): input values %r, system values %r; the case file gives %r and %r' % (vin1.tolist()[:4], v1.tolist()[:4], vin0.tolist()[:4], v0.tolist()[:4]),
+                    'native_cmd': 'contracts/fn_sequence.py replay_reset_inputs'}
+    return {'confirmed': False, 'tried': n}
+
+replay_reset_inputs.real_system = True
